@@ -258,7 +258,7 @@ TWIN_SHARE = 0.06
 
 
 def gen_case(rng, tier):
-    return _twin.maybe_wrap(rng, _gen_case(rng, tier), TWIN_SHARE)
+    return _twin.maybe_wrap(rng, _gen_case(rng, tier), TWIN_SHARE, ok=lambda c: len(c['S']) <= 12000)
 
 
 def run_case(case):
